@@ -410,6 +410,15 @@ def solve_one(task):
     stages.append(lambda: plain(hyps, timeout, 'z3', model=True, sd=seed + 17))
     if has_q:
         stages.append(lambda: plain(qf, timeout, 'z3-qfslice', model=True, sd=seed + 5))
+        # portfolio: quantifier instantiation depends on the order in which hypotheses are asserted; the same formulas in other
+        # (deterministic) orders, with other seeds
+        import random as _random
+        for sd_ in (1, 2, 3):
+            def shuffled(sd_=sd_):
+                hs = list(hyps)
+                _random.Random(1000 * sd_ + seed).shuffle(hs)
+                return plain(hs, min(timeout, 12000), 'z3-reordered', sd=seed + 100 * sd_)
+            stages.append(shuffled)
     trace = []
     for k, st in enumerate(stages):
         t1 = time.time()
